@@ -28,7 +28,7 @@ Simplifications vs DESIGN.md: plain hypothesis op lists instead of a RuleBasedSt
 mtime validation) are not generated; after a read that must fail the harness removes a possibly left-over entry itself
 (the statement says nothing about it); a package that is uncached and unsourceable is read once per tree state, not after
 every op (each such read is a plain failing regeneration costing a daemon respawn). One regeneration costs about one CPU
-second on this host, so the quick tier is 128 histories (~1000 reads).
+second on this host, so the quick tier is 112 histories (~1000 reads).
 """
 from __future__ import annotations
 
@@ -585,7 +585,7 @@ def guarded_history(ctx, spec):
 
 def plan(tier, seed):
     if tier == "quick":
-        return [{"task": "hyp", "examples": 8} for _ in range(16)]
+        return [{"task": "hyp", "examples": 7} for _ in range(16)]
     return [{"task": "hyp", "examples": 90} for _ in range(16)]
 
 
